@@ -144,10 +144,12 @@ def check(prop, tier, seed, jobs):
     manifest = json.load(open(os.path.join(VERIF, 'MANIFEST.json')))
     entry = next((c for c in manifest['checks'] if c['property_id'] == prop), None)
     level = entry['level_claimed']['category'] if entry else 'other'
-    hs = [h for h in run.HARNESSES.values() if prop in h.props]
+    hs = [h for h in run.HARNESSES.values() if prop in h.props or prop in h.also]
     run.KNOWN_REGIONS.update((e.get('witness') or {}).get('region') for e in load_known() if e.get('status') == 'open' and (e.get('witness') or {}).get('region'))
     tasks = [('verify', h.name, None) for h in hs]
     for h in hs:
+        if prop not in h.props:
+            continue                  # canaries of a harness run with the properties it primarily serves
         for i in range(len(h.canaries)):
             tasks.append(('canary', h.name, i))
     if tier == 'thorough':
@@ -180,7 +182,9 @@ def check(prop, tier, seed, jobs):
         if r['error']:
             undecided_harness[r['harness']] = r['error']
         for o in r['obligations']:
-            if prop not in o['props']:
+            # obligations of the property + every auxiliary obligation (invariant init/preservation/frame, callee
+            # preconditions, definedness) of the harnesses its clauses are proved in: their proofs depend on those
+            if prop not in o['props'] and o['kind'] != 'A':
                 continue
             nobs += 1
             solver_s += o['seconds']
@@ -272,7 +276,7 @@ def check(prop, tier, seed, jobs):
                 bviol.append((oid, r['module'], f))
     for r in rres + fallback:
         for f in r.get('failures', []):
-            if f['kind'] != 'P':
+            if f['kind'] != 'P' or prop not in (f.get('meta') or {}).get('_props', [prop]):
                 continue
             oid = '%s/%s' % (r['harness'], f['clause'])
             kf = next((e for e in known if finding_matches(e, prop, oid, f.get('meta'))), None)
